@@ -152,7 +152,7 @@ Spec == Init /\ [][Next]_vars
 
 AtEnd == l = NRec + 1
 Brief == IF AtEnd THEN [l |-> l, bad |-> bad, nprobe |-> nprobe] ELSE [l |-> l]
-Holds(p) == AtEnd => \A b \in bad : b[1] # p
+Holds(p) == AtEnd => NoneFor(bad, p)
 C20 == Holds("C20")
 C06 == Holds("C06")
 ====================================================================================
